@@ -640,7 +640,7 @@ func c20Concurrent(c *h.Ctx, id string, r *rand.Rand) {
 }
 
 func c20Main(c *h.Ctx) {
-	n := c.Pick(1500, 40000)
+	n := c.Pick(5000, 40000)
 	for k := 0; k < n; k++ {
 		id := fmt.Sprintf("h%d", k)
 		if !c.Case(id) {
